@@ -349,7 +349,7 @@ mk('C17', ['NAdv','AllocProofs','InvalidProofs','RevConv','RevBridge4','RevolveR
    lifted('C17_hopt_table_total','HRevTotal','hopt_table_total','get_hopt_table (K = 2) returns, with tables of the right dimensions whose column m = 0 of optp[1] is infinite from l = 2 on'),
    lifted('C17_revolve_family_rejects_partial','InvalidProofs','revolve_rejects','PARTIAL (Revolve family): max_n < 1 or no RAM unit for max_n > 1 is an exception at construction; that valid tuples always yield a complete stream is proved for Revolve, DiskRevolve, PeriodicDiskRevolve, HRevolve (C17_*_complete); PARTIAL only in that snapshots_in_ram = 0 with max_n = 1 is not covered for the disk classes (correspondence + oracle)')])
 C18_runs = safety('C18','C18','') + disk_safety('C18','C18') + hrev_safety('C18','C18')
-mk('C18', ['Repr','Ops','RevConv','RevBridge4','RevolveRun','DiskRun','OnlineWF','HRevRun','HRevTop'], [C18_runs, lifted('C18_basic_wf_every_history','OnlineWF','basic_wf_every_history','NoneCheckpointSchedule, SingleMemoryStorageSchedule, SingleDiskStorageSchedule under EVERY history (requests, valid or rejected finalize calls, Run loops, in any order and number; any executor parameters): every yielded action is well formed (wf_action: the E_malformed requirements of the executor)'), lifted('C18_wf_not_malformed','OnlineWF','wf_not_malformed','wf_action is exactly what the executor needs not to report E_malformed'), lifted('C18_z_roundtrip','Repr','z_roundtrip','decimal printing of integers parses back')])
+mk('C18', ['Repr','Ops','RevConv','RevBridge4','RevolveRun','DiskRun','OnlineWF','HRevRun','HRevTop','TLWF'], [C18_runs, lifted('C18_basic_wf_every_history','OnlineWF','basic_wf_every_history','NoneCheckpointSchedule, SingleMemoryStorageSchedule, SingleDiskStorageSchedule under EVERY history (requests, valid or rejected finalize calls, Run loops, in any order and number; any executor parameters): every yielded action is well formed (wf_action: the E_malformed requirements of the executor)'), lifted('C18_twolevel_wf_every_history','TLWF','twolevel_wf_every_history','TwoLevelCheckpointSchedule (period >= 1, binomial_snapshots >= 0, binomial storage RAM or DISK, both trajectories) under EVERY history: every yielded action is well formed -- an accepted finalize(k), wherever it comes, puts the object in the state of the canonical run for max_n = k'), lifted('C18_wf_not_malformed','OnlineWF','wf_not_malformed','wf_action is exactly what the executor needs not to report E_malformed'), lifted('C18_z_roundtrip','Repr','z_roundtrip','decimal printing of integers parses back')])
 mk('C19', ['PeriodProofs','PeriodShape'], [lifted('C19_periodic_shape','PeriodShape','periodic_shape','the whole operation sequence, every l = max_n - 1 >= 0 and cm >= 1: sweep ++ revolve(last segment) ++ (Read_disk + revolve(one period)) per disk checkpoint, last first; k disk checkpoints, written exactly while more than mx steps remain; the pieces come from the memory-only generator `revolve` on the opt_0 table (the generator of class Revolve: C07) and contain no disk operation; hence disk writes only in the sweep at 0, mx, ..., (k-1) mx, none afterwards, and each disk checkpoint is read exactly once'), lifted('C19_periodic_sweep_writes','PeriodProofs','periodic_sweep_writes','disk writes of the forward sweep are exactly at 0, m, 2m, ... while more than m steps remain'),
    lifted('C19_period_closed_form','PeriodProofs','periodic_period_closed_form','the period is beta(cm, tm) with tm the least t such that beta(cm+1, t) uf > wd + rd; independent of N')])
 
